@@ -24,6 +24,10 @@ def run(ck, ctx):
                      "operator than the selected payload is reported as an associativity hazard")
     ck.rule("R07.4", "total order for argmax: Ord for LamportClock compares (time, replica_id) lexicographically, PartialOrd delegates to it")
     ck.rule("R07.5", "strictness agreement: every last-writer-wins selection takes `other` only when `other > self` (strictly)")
+    ck.rule("R07.6", "a clock keeps its identity: the replica id of a LamportClock is written only when the clock is constructed - no store to "
+                     "its `replica_id` field and no whole-value store through a `&mut LamportClock` (`*self = self.merge(other)` adopts the "
+                     "sender's id) anywhere: two replicas that stamp with the same id can issue equal stamps for different values, and for equal "
+                     "stamps every last-writer-wins merge keeps `self`, i.e. merge(a,b) != merge(b,a) on values the replicas really produce")
     ck.nd("values 'reachable by local operations' are not modelled: the certificate quantifies over all field values")
     ck.assume("two stamps that are equal under the total order carry equal payloads (stamps are unique per replica: C08)")
     tree = certify(ck)
@@ -33,6 +37,7 @@ def run(ck, ctx):
         prog = ctx.prog(cfg)
         from . import c06
         c06.r066(ck, prog, cfg, "R07.5")
+        r076(ck, prog, cfg, "R07.6")
 
 
 def certify(ck, rid=lambda r: r, floor_id="R07.0", skip_rules=()):
@@ -559,3 +564,31 @@ def _r074(ck, tree):
         ck.ok("R07.4", "LamportClock::partial_cmp", "delegates to Ord")
     except Shape as ex:
         ck.bad("R07.4", "LamportClock::partial_cmp", "PartialOrd does not delegate to Ord: %s" % ex, "%s:%s" % (p["file"], ex.ln or p["ln"]))
+
+
+# ------------------------------------------------------------------------------------------------
+CLOCK_TY = "replication::lattice::LamportClock"
+
+
+def r076(ck, prog, cfg, rid):
+    tag = "" if cfg == "default" else "@" + cfg
+    n = 0
+    for fn in prog.fns.values():
+        if "::tests::" in fn.id or fn.d.get("implements", "").endswith(("Clone::clone", "Deserialize::deserialize", "Default::default")):
+            continue
+        for b, i, st in fn.stmts():
+            lhs = st["lhs"]
+            pr = lhs.get("p", [])
+            fs = [e for e in pr if isinstance(e, dict) and "f" in e]
+            # (a) field store to replica_id of a clock
+            if fs and pr[-1] is fs[-1] and fs[-1]["f"] == "replica_id" and fs[-1].get("o") == CLOCK_TY:
+                ck.bad(rid, "%s:store-replica_id%s" % (fn.id, tag), "the replica id of a LamportClock is overwritten after construction: stamps of two "
+                       "replicas can become equal, and an equal stamp on different values breaks merge's commutativity", fn.where(st["ln"]))
+            # (b) whole-value store through a reference to a clock
+            if pr == ["*"] and str(fn.locals[lhs["l"]]) == "&mut " + CLOCK_TY:
+                ck.bad(rid, "%s:whole-store%s" % (fn.id, tag), "a LamportClock is replaced wholesale through `&mut` (time and replica id together): a "
+                       "clock that takes over another replica's id issues that replica's stamps", fn.where(st["ln"]))
+        if any(str(t) == "&mut " + CLOCK_TY for t in fn.locals[1:fn.d["argc"] + 1]):
+            n += 1
+            ck.ok(rid, "%s:keeps-identity%s" % (fn.id, tag), detail="takes &mut LamportClock; stores only to .time")
+    ck.floor(rid + tag, n, 4)
